@@ -187,13 +187,13 @@ fn apply_ctor<T: Dom>(op: &Op) -> (Range<T>, Vec<Model>) {
     }
 }
 
-/// Acceptable successor models of `op` applied in model state `m` (more than one only for
-/// set_value on an empty range, whose bounding box the statement leaves open).
+/// Successor model of `op` applied in model state `m`.
 fn model_step(m: &Model, op: &Op) -> Vec<Model> {
     match op {
         Op::Set(p, v) => {
             let mut out = vec![];
-            let starts: Vec<P> = if m.empty { vec![*p, (0, 0)] } else { vec![m.start] };
+            // an empty range has no rectangle: the bounding box of nothing and p is the single cell p
+            let starts: Vec<P> = if m.empty { vec![*p] } else { vec![m.start] };
             for s in starts {
                 let mut n = m.clone();
                 if m.empty {
@@ -437,7 +437,7 @@ fn bfs<T: Dom>(rep: &Report, lo: P, g: u32, nvals: u8, sparse_max: usize) {
 pub fn check(rep: &Report) {
     rep.rule("explicit-state BFS to closure over real Range<T> objects in a g x g coordinate box: initial states = empty(), every new(s,e), every row-sorted from_sparse list; transitions = every set_value(p>=start, v) and every range(s,e); a state is (is_empty,start,end,cell codes); non-trivial = reached by at least one transition (not an initial state); every state checked against a map model through all read accessors");
     rep.assume("coordinates restricted to the listed boxes; values to 2-3 codes per cell type (0 = T::default())");
-    rep.assume("set_value on an empty range may give either the tight box (p,p) or ((0,0),p): the statement does not fix it");
+    rep.assume("set_value on an empty range gives the single cell at that position (the bounding box of no rectangle and p)");
     let t = crate::thorough(&rep.tier);
     let jobs: Vec<Box<dyn Fn(&Report) + Send + Sync>> = if !t {
         vec![
